@@ -418,6 +418,24 @@ def step (d : DState) (line : String) : DState × List String :=
     (d, (natsOf is).map fun i => match findGroup d.tree.leafGroups i with
       | some (g, k) => s!"F P {i} {g} {k}"
       | none => s!"F P {i} none")
+  | "find" :: "parent" :: l :: is =>
+    let l := l.toNat!
+    (d, (d.tree.level l).zipIdx.flatMap fun (grp, g) => (natsOf is).map fun i =>
+      match findByParent (· >>> d.D) grp i with
+      | some k => s!"F Q {l} {g} {i} {k}"
+      | none => s!"F Q {l} {g} {i} none")
+  | "find" :: "ingroup" :: l :: is =>
+    let l := l.toNat!
+    let cells := (d.tree.level l).zipIdx.flatMap fun (grp, g) => (natsOf is).map fun i =>
+      match findCell grp i with
+      | some k => s!"F G {l} {g} {i} {k}"
+      | none => s!"F G {l} {g} {i} none"
+    let leaves := if l + 1 == d.tree.H then d.tree.leafGroups.zipIdx.flatMap fun (grp, g) => (natsOf is).map fun i =>
+      match findCell grp i with
+      | some k => s!"F H {g} {i} {k}"
+      | none => s!"F H {g} {i} none" else []
+    (d, cells ++ leaves)
+  | "offs" :: _ => (d, [])       -- particles moved inside / onto a face of their own cell: the cell, hence the model, is unchanged
   | ["end"] => (d, ["end"])
   | [""] => (d, [])
   | _ => (d, ["bad-op " ++ line.trimAscii.toString])
